@@ -28,6 +28,7 @@ def run(chk):
     )
     chk.not_decided = "equality with an RFC 6265 reference store over histories; date parsing; path-match beyond the length/prefix structure."
     chk.explanation += " After the defect hunt: side tables are keyed by the full cookie identity; parsed dates are compared with None; the Max-Age arithmetic cannot overflow."
+    chk.explanation += " Second hunt: only a failed match or a missing cookie pair ends the Set-Cookie parse; the Expires value runs to the next `;`; the Domain attribute is lower-cased where it is read; path-match and default-path use the encoded path."
     uc = repo.func(MOD, f"{CJ}.update_cookies")
     fc = repo.func(MOD, f"{CJ}.filter_cookies")
     # ---- accept -------------------------------------------------------------------------------------------
